@@ -108,6 +108,7 @@ func (p *InPort) Open(proc *process.Process) *packet.Reader {
 		return reader
 	}
 
+	verifYield(13)
 	p.mu.Lock()
 
 	reader, ok = p.readers[proc]
